@@ -53,8 +53,10 @@ namespace {
     }                                                                                                                            \
   while (0)
 
-// Known findings (work/notes/C02_findings.md) are excluded by construction.  VERIF_NO_EXCLUDE=1 switches every
-// exclusion off (that is how a fix is confirmed); VERIF_NO_EXCLUDE=L2,N1 switches off only the listed ones.
+// Known findings (N2, N4; work/notes/C02_findings.md) are excluded by construction.  VERIF_NO_EXCLUDE=1 switches every
+// exclusion off (that is how a fix is confirmed); VERIF_NO_EXCLUDE=N2,N4 switches off only the listed ones.
+// (L2, L3, N1, N3, N5 were repaired in the library: their input classes are part of the normal search, the former
+// probes are regression inputs under replays/C02/fixed_*.json.)
 bool
 no_exclude(const char* id)
 {
@@ -253,7 +255,6 @@ struct Run
   bool readable = true;     // false: write-only Interfile (all reads go through a second object)
   bool stream_backed = false;
   bool prefilled = false;   // harness wrote preamble + zeros + guard before the library saw the stream
-  bool unflushed = false;   // only when L3 is excluded: set_bin_value happened on a file and nothing flushed since
   static constexpr unsigned char PRE = 0xAB, GUARD = 0xCD;
   static constexpr int NGUARD = 8;
 
@@ -302,7 +303,7 @@ struct Run
   Result setup();
   // the object reads go through (second object for write-only data, or when asked for)
   shared_ptr<ProjData> second_reader() const { return ProjData::read_from_file(header_path); }
-  bool can_second_reader() const { return has_header && !unflushed; }
+  bool can_second_reader() const { return has_header; }
 
   // ---- reading everything through one path --------------------------------------------------------
   Result read_all(ProjData& r, int& path, std::vector<float>& got, const std::string& after);
@@ -669,14 +670,7 @@ Run::compare_all(int sel, const std::string& after)
   if (!readable)
     second = true;
   if (second && !can_second_reader())
-    {
-      if (!readable)
-        {
-          vf::stats().count("read-back skipped (write-only data, not flushed: excluded L3)");
-          return Result::pass();
-        }
-      second = false;
-    }
+    second = false; // (raw streams without header; write-only data always have a header)
   shared_ptr<ProjData> other;
   ProjData* r = pd.get();
   std::string how = after;
@@ -712,11 +706,6 @@ Run::check_bytes(const std::string& after)
 {
   if (!stream_backed)
     return Result::pass();
-  if (unflushed)
-    {
-      vf::stats().count("byte-level check skipped (excluded L3: set_bin_value does not flush)");
-      return Result::pass();
-    }
   const Geo& g = geo();
   std::string bytes;
   if (backing == B_SSTREAM)
@@ -855,22 +844,15 @@ Run::run_op(const json& op, std::size_t opno)
     {
     // ------------------------------------------------------------------ writes
     case W_BIN: {
-      // N1 (notes): ProjDataFromStream::set_bin_value ignores the object's scale factor
-      if (stream_backed && L.scale != 1.F && !no_exclude("N1"))
-        {
-          vf::stats().excluded_known++;
-          vf::stats().count("excluded N1: set_bin_value with scale factor != 1");
-          return Result::pass();
-        }
+      // (former findings N1: scale factor ignored, and L3: no flush, of ProjDataFromStream::set_bin_value are repaired;
+      //  set_bin_value is a write path like the others: scaled like them, visible in the file when the call returns)
       const float x = value(rng);
       set_bin(Bin(s, v, a, t, k, x));
       ref[g.idx(s, a, v, t, k)] = x;
-      // L3 (notes): no flush in ProjDataFromStream::set_bin_value; when excluded, file-level checks wait for the next flush
-      if (file_backed() && !no_exclude("L3"))
-        {
-          unflushed = true;
-          vf::stats().excluded_known++;
-        }
+      if (stream_backed && L.scale != 1.F)
+        vf::stats().count("set_bin_value on a stream with scale factor != 1");
+      if (file_backed())
+        vf::stats().count("set_bin_value on a file (flush observed by the independent reader)");
       return after_write(op, vf::cat(tag, " set_bin_value", g.name(s, a, v, t, k), "=", x));
     }
     case W_VIEWGRAM: {
@@ -879,7 +861,6 @@ Run::run_op(const json& op, std::size_t opno)
         for (int tt = g.min_tang; tt <= g.max_tang; ++tt)
           ref[g.idx(s, aa, v, tt, k)] = vw[aa][tt] = value(rng);
       VF_CHECK(pd->set_viewgram(vw) == Succeeded::yes, tag, " set_viewgram returned Succeeded::no");
-      unflushed = false; // documented flush (ProjDataFromStream.cxx:396)
       return after_write(op, vf::cat(tag, " set_viewgram(view=", v, ",seg=", s, ",tof=", k, ")"));
     }
     case W_SINOGRAM: {
@@ -888,7 +869,6 @@ Run::run_op(const json& op, std::size_t opno)
         for (int tt = g.min_tang; tt <= g.max_tang; ++tt)
           ref[g.idx(s, a, vv, tt, k)] = sn[vv][tt] = value(rng);
       VF_CHECK(pd->set_sinogram(sn) == Succeeded::yes, tag, " set_sinogram returned Succeeded::no");
-      unflushed = false;
       return after_write(op, vf::cat(tag, " set_sinogram(ax=", a, ",seg=", s, ",tof=", k, ")"));
     }
     case W_SEG_VIEW: {
@@ -898,7 +878,6 @@ Run::run_op(const json& op, std::size_t opno)
           for (int tt = g.min_tang; tt <= g.max_tang; ++tt)
             ref[g.idx(s, aa, vv, tt, k)] = sg[vv][aa][tt] = value(rng);
       VF_CHECK(pd->set_segment(sg) == Succeeded::yes, tag, " set_segment(by view) returned Succeeded::no");
-      unflushed = false;
       return after_write(op, vf::cat(tag, " set_segment by view(seg=", s, ",tof=", k, ")"));
     }
     case W_SEG_SINO: {
@@ -908,7 +887,6 @@ Run::run_op(const json& op, std::size_t opno)
           for (int tt = g.min_tang; tt <= g.max_tang; ++tt)
             ref[g.idx(s, aa, vv, tt, k)] = sg[aa][vv][tt] = value(rng);
       VF_CHECK(pd->set_segment(sg) == Succeeded::yes, tag, " set_segment(by sinogram) returned Succeeded::no");
-      unflushed = false;
       return after_write(op, vf::cat(tag, " set_segment by sinogram(seg=", s, ",tof=", k, ")"));
     }
     case W_RELATED: {
@@ -929,7 +907,6 @@ Run::run_op(const json& op, std::size_t opno)
               ref[g.idx(sv, aa, vv, tt, k)] = (*it)[aa][tt] = value(rng);
         }
       VF_CHECK(pd->set_related_viewgrams(rv) == Succeeded::yes, tag, " set_related_viewgrams returned Succeeded::no");
-      unflushed = false;
       vf::stats().count(symm_is_pet ? "related viewgram ops with PET symmetries" : "related viewgram ops with trivial symmetries");
       vf::stats().maxi("max related viewgrams in one set", double(seen.size()));
       return after_write(op, vf::cat(tag, " set_related_viewgrams(basic view=", basic.view_num(), ",seg=", basic.segment_num(), ",tof=", k, ")"));
@@ -938,7 +915,6 @@ Run::run_op(const json& op, std::size_t opno)
       const float x = value(rng);
       pd->fill(x);
       std::fill(ref.begin(), ref.end(), x);
-      unflushed = false;
       return after_write(op, vf::cat(tag, " fill(", x, ")"));
     }
     case W_FILL_OTHER: {
@@ -991,7 +967,6 @@ Run::run_op(const json& op, std::size_t opno)
               return Result::fail(tag + " preparing the source of fill(ProjData): set_segment failed");
           }
       pd->fill(*src);
-      unflushed = false;
       vf::stats().count(vf::cat("fill(ProjData) source kind ", kind));
       return after_write(op, vf::cat(tag, " fill(ProjData) source kind ", kind));
     }
@@ -1023,7 +998,6 @@ Run::run_op(const json& op, std::size_t opno)
                 ref[g.idx(s2, aa, vv, tt, kk)] = flat[p++] = value(rng);
       auto end = pd->fill_from(flat.begin());
       VF_CHECK(end == flat.end(), tag, ": fill_from advanced the iterator by ", long(end - flat.begin()), " of ", g.n);
-      unflushed = false;
       return after_write(op, tag + " fill_from(iterator)");
     }
     case W_ARITH: {
@@ -1069,7 +1043,6 @@ Run::run_op(const json& op, std::size_t opno)
           pd->fill(1.F);
           std::fill(ref.begin(), ref.end(), 1.F);
         }
-      unflushed = false;
       return after_write(op, vf::cat(tag, " in-place arithmetic kind ", which));
     }
     // ------------------------------------------------------------------ reads of one piece
@@ -1287,21 +1260,9 @@ Run::op_oob(const json& op, const std::string& tag)
     }
   const std::string what = vf::cat(tag, " ", pnames[path], " with ", kind_names[kind], " one step ", above ? "above" : "below", " the range: ",
                                    "(seg=", s, ",ax=", a, ",view=", v, ",tang=", t, ",tof=", k, ") on ", backing_names[backing]);
-  // L2 (notes): view and tangential position are not range-checked in get_index()/get_offset()
-  if ((kind == K_VIEW || kind == K_TANG) && !no_exclude("L2"))
-    {
-      vf::stats().excluded_known++;
-      vf::stats().count("excluded L2: out-of-range view/tangential position");
-      return Result::pass();
-    }
-  // N3 (notes): the segment number is used to index the per-segment arrays of ProjDataInfo before any range test
-  // when a viewgram/sinogram/segment object is built for it, and in set_segment (all paths other than the bin paths)
-  if (kind == K_SEG && path >= 2 && !no_exclude("N3"))
-    {
-      vf::stats().excluded_known++;
-      vf::stats().count("excluded N3: out-of-range segment through viewgram/sinogram/segment getters and set_segment");
-      return Result::pass();
-    }
+  // (former findings L2: view/tangential position not range-checked in get_index()/get_offset(), and N3: segment number
+  //  used as an index into the per-segment arrays of ProjDataInfo before any range test, are repaired: every kind of
+  //  out-of-range request through every path is part of the search)
   vf::stats().count(vf::cat("out-of-range requests: ", pnames[path], " / ", kind_names[kind]));
 
   bool reported = false;
@@ -1429,7 +1390,7 @@ compare_info(const ProjDataInfo& a, const ProjDataInfo& b, const std::string& wh
 Result
 Run::op_header(const std::string& tag, int sel)
 {
-  if (!has_header || unflushed)
+  if (!has_header)
     return Result::pass();
   const Geo& g = geo();
   shared_ptr<ProjData> rd = ProjData::read_from_file(header_path);
@@ -1555,9 +1516,6 @@ known_signature(const json& c)
 {
   if (!no_exclude("N4") && single_mashed_tof_bin(c))
     return "C02:N4:TOF data with a single (fully mashed) TOF bin lose their TOF mashing factor in the header";
-  if (!no_exclude("N5") && c["scanner"].contains("block_gap_ax")
-      && (c["scanner"]["block_gap_ax"].get<double>() < 0.01 || c["scanner"]["block_gap_tr"].get<double>() < 0.01))
-    return "C02:N5:blocks scanner without gap between blocks is refused when its own header is read back";
   return "";
 }
 
@@ -1613,17 +1571,10 @@ gen(Src& s, int size)
   if (c["scanner"].contains("ax_crystal_spacing"))
     {
       c["scanner"]["ring_spacing"] = c["scanner"]["ax_crystal_spacing"];
-      // N5 (notes): a blocks scanner whose crystals fill the block exactly (gap 0) is refused when its own header is
-      // read back (Scanner::check_consistency compares crystal_spacing*n > block_spacing exactly, after both numbers went
-      // through 6-digit text); excluded by construction: gaps of at least 0.01 mm
-      if (!no_exclude("N5"))
-        for (const char* key : { "block_gap_ax", "block_gap_tr" })
-          if (c["scanner"][key].get<double>() < 0.01)
-            {
-              c["scanner"][key] = 0.01;
-              vf::stats().excluded_known++;
-              vf::stats().count("excluded N5: generator enlarged a zero block gap to 0.01 mm");
-            }
+      // (former finding N5, repaired: a blocks scanner whose crystals fill the block exactly (gap 0) was refused when its
+      //  own header was read back; zero gaps are generated in about half of the blocks scanners, stir_gen.h:126-127)
+      if (c["scanner"]["block_gap_ax"].get<double>() == 0. || c["scanner"]["block_gap_tr"].get<double>() == 0.)
+        vf::stats().count("generated blocks scanners with a zero block gap");
     }
   shared_ptr<Scanner> sc = vg::make_scanner(c["scanner"]);
   vg::PdiOpts po;
@@ -1718,7 +1669,6 @@ gen(Src& s, int size)
   io.max_xy = 7;
   c["image"] = vg::gen_image(s, io);
   c["seed"] = s.seed64();
-  const bool n1_excluded = !no_exclude("N1") && backing != B_MEM && c["scale"].get<double>() != 1.;
   const long nops = s.range(5, 5 + long(size) * 35 / 100);
   // weights: writes dominate; every write is followed by a full read-back through the path in op[7]
   static const std::vector<int> codes = { W_BIN,      W_BIN,      W_BIN,     W_VIEWGRAM, W_VIEWGRAM, W_SINOGRAM,  W_SINOGRAM, W_SEG_VIEW, W_SEG_SINO,
@@ -1728,25 +1678,9 @@ gen(Src& s, int size)
   json ops = json::array();
   for (long i = 0; i < nops; ++i)
     {
-      int code = s.pick(codes);
-      if (code == W_BIN && n1_excluded)
-        code = W_VIEWGRAM;
-      long v = s.range(0, 999);
-      if (code == E_OOB)
-        { // steer away from the excluded classes (L2: view/tangential; N3: segment through the object getters) so that
-          // the remaining out-of-range requests keep their share; the interpreter skips excluded ones anyway
-          for (int tries = 0; tries < 8; ++tries)
-            {
-              const int path = int(v % 10);
-              static const std::vector<std::vector<int>> kl = { { 0, 1, 2, 3, 4 }, { 0, 1, 2, 3, 4 }, { 0, 2, 4 }, { 0, 1, 4 }, { 0, 4 },
-                                                                { 0, 4 },          { 0, 2, 4 },       { 2, 4 },    { 1, 4 },    { 4, 0 } };
-              const int kind = kl[std::size_t(path)][std::size_t((v / 10) % long(kl[std::size_t(path)].size()))];
-              const bool excl = ((kind == 2 || kind == 3) && !no_exclude("L2")) || (kind == 0 && path >= 2 && !no_exclude("N3"));
-              if (!excl)
-                break;
-              v = s.range(0, 999);
-            }
-        }
+      const int code = s.pick(codes);
+      // (for E_OOB, v selects path x index kind x direction uniformly: no class of out-of-range request is excluded)
+      const long v = s.range(0, 999);
       ops.push_back({ code, s.range(0, 999), s.range(0, 999), s.range(0, 999), s.range(0, 999), s.range(0, 999), v, s.range(0, 47) });
     }
   c["ops"] = ops;
